@@ -28,7 +28,7 @@ def knn_table(rng, n, k, scale=1.0, kind=None, inf_frac=0.0):
     """A valid kNN table: column 0 is the sample itself at distance 0, rows sorted by distance,
     neighbour indices distinct within a row.  `inf_frac` of the rows get an `inf` tail
     (index -1), as produced by the disconnection distance."""
-    kind = kind or rng.choice(["uniform", "clustered", "ties", "dups"])
+    kind = kind or rng.choice(["uniform", "clustered", "ties", "dups", "mostly-dups", "self-not-first"])
     idx = np.zeros((n, k), dtype=np.int64)
     dist = np.zeros((n, k), dtype=np.float32)
     for i in range(n):
@@ -43,13 +43,22 @@ def knn_table(rng, n, k, scale=1.0, kind=None, inf_frac=0.0):
             d = np.sort(np.concatenate([rng.uniform(0.05, 0.1, (k - 1) // 2), rng.uniform(0.8, 1.0, k - 1 - (k - 1) // 2)]))
         elif kind == "ties":
             d = np.sort(rng.choice([0.25, 0.5, 0.75, 1.0], k - 1))
+        elif kind == "mostly-dups":  # only one or two distinct (non-zero-distance) neighbours
+            d = np.zeros(k - 1)
+            m = int(rng.integers(1, 3))
+            d[max(0, k - 1 - m):] = np.sort(rng.uniform(0.05, 1.0, min(m, k - 1)))
         else:  # leading zero-distance duplicates
             d = np.sort(rng.uniform(0.05, 1.0, k - 1))
             nz = int(rng.integers(0, max(1, (k - 1) // 2) + 1))
+            if kind == "self-not-first":
+                nz = max(nz, 1)
             d[:nz] = 0.0
         idx[i, 0] = i
         idx[i, 1:] = nb
         dist[i, 1:] = (d * scale).astype(np.float32)
+        if kind == "self-not-first" and k > 1 and dist[i, 1] == 0:
+            # a duplicate of the sample sorts before the sample itself (both at distance 0)
+            idx[i, 0], idx[i, 1] = idx[i, 1], idx[i, 0]
     if inf_frac > 0:
         for i in range(n):
             if rng.random() < inf_frac:
